@@ -95,9 +95,9 @@ def _worker(item):
         for sp in [0] + list(range(1, len(seq))):
             res['distinct'] |= writer_states(calls, sp)
         for version in (4712, 4713):
-            for dest in ('stream', 'path', 'path-stale'):
+            for dest in ('stream', 'path', 'path-stale', 'path-empty'):
                 for split in [0] + list(range(1, len(seq))):
-                    if dest == 'path-stale' and (split or len(seq) > 2):
+                    if dest in ('path-stale', 'path-empty') and (split or len(seq) > 2):
                         continue
                     for index in ((False, True) if dest != 'path-stale' else (True,)):
                         oc, why = check_program(calls, assign, split, version, dest, index)
